@@ -89,6 +89,8 @@ var axioms = []axiom{
 	// STR: replacing one byte by one byte keeps the length and maps byte by byte
 	{[]string{"str_replace"}, "(assert (forall ((s Str) (x Str) (y Str)) (! (=> (and (= (slen x) 1) (= (slen y) 1)) (= (slen (str_replace s x y)) (slen s))) :pattern ((str_replace s x y)))))", "STR"},
 	{[]string{"str_replace"}, "(assert (forall ((s Str) (x Str) (y Str) (i Int)) (! (=> (and (= (slen x) 1) (= (slen y) 1) (<= 0 i) (< i (slen s))) (= (sat (str_replace s x y) i) (ite (= (sat s i) (sat x 0)) (sat y 0) (sat s i)))) :pattern ((sat (str_replace s x y) i)))))", "STR"},
+	// F64: IEEE equality is symmetric
+	{[]string{"f64_eq"}, "(assert (forall ((a F64) (b F64)) (! (= (f64_eq a b) (f64_eq b a)) :pattern ((f64_eq a b)))))", "F64"},
 	// FMT: a number prints as at least one character
 	{[]string{"itoa"}, "(assert (forall ((i Int)) (! (>= (slen (itoa i)) 1) :pattern ((itoa i)))))", "FMT"},
 	{[]string{"fmt_v"}, "(assert (forall ((a Any)) (! (=> (or ((_ is A_int) a) ((_ is A_float64) a)) (>= (slen (fmt_v a)) 1)) :pattern ((fmt_v a)))))", "FMT"},
